@@ -20,7 +20,7 @@ RULE = ("E1: ('wrap', recipient, key class, selector, form) = full product of 12
         "OpenSSL pkeyutl -derive with the recipient's private key -> SHA-256 -> first 16 bytes -> reference AES-CBC; the library's own decryptor "
         "must agree. ('eph', recipient, class, key) = the ephemeral scalar is FORCED through the randomness seam into edge classes found by "
         "deterministic search with the reference curve: 1, 2, n-1, X with leading 00 / 04 / FF, Y with leading 00, ECDH shared x with one / two "
-        "leading zero bytes. ('default', selector, key class) = no explicit recipient: the published keys are replaced by test keys (their SHA-256 digests "
+        "leading zero bytes. ('blockreuse', key, order) = ONE live block object packed in turn for two recipients of the same selector and with another session key; ('default', selector, key class) = no explicit recipient: the published keys are replaced by test keys (their SHA-256 digests "
         "are pinned against the source constants) and the block for selector s must open with private key s and no other. ('reject', kind, i) = "
         "(0,0), (x,y+-1), x>=p, y>=p, a secp256k1 point, 32 seed-derived 64-byte strings: EccDecryptor.decrypt must raise.")
 ASSUMPTIONS = [
@@ -111,6 +111,10 @@ def cases(ctx):
     for sel in range(4):
         for ki in range(5):
             yield ("default", sel, ki)
+    # ONE live block object packed several times: for recipient A, for recipient B (same selector), with another session key
+    for ki in range(5):
+        for order in ("AB", "BA", "AAB", "ABA"):
+            yield ("blockreuse", ki, order)
     yield ("published",)
     for kind in ("zero", "y+1", "y-1", "x+1", "x>=p", "y>=p", "secp256k1", "negated-ok", "x+p-congruent", "x+p-congruent-2", "small-x-ok"):
         yield ("reject", kind, 0)
@@ -202,6 +206,26 @@ def run_case(ctx, case):
             return o.viol("eph|library-unwrap-raises|%s" % cls, "library decryptor raised %r for ephemeral class %s" % (ex, cls))
         if sk != key:
             o.viol("eph|library-unwrap|%s" % cls, "library decryptor returns a different key for ephemeral class %s" % cls)
+        return o
+    if kind == "blockreuse":
+        _, ki, order = case
+        key = key_of(ctx, ki)
+        key2 = key_of(ctx, (ki + 2) % 5)
+        d = {"A": scalars(ctx)[6], "B": scalars(ctx)[7]}
+        blk_obj = InitEccAuthBlock(2)
+        for step, who in enumerate(order):
+            k = key if step < 2 else key2
+            enc = EccEncryptor(2, FX.priv_key(d[who]).public_key)
+            with DetRandom("c09-reuse-%r-%d" % (case, step)):
+                raw = blk_obj.pack(k, [enc])
+            try:
+                got = EC.ecies_unwrap(EC.P256, d[who], raw[1:]) if len(raw) == 82 else None
+            except ValueError:
+                got = None
+            if got != k:
+                o.cls = "stale-block"
+                return o.viol("reuse|stale-block", "one InitEccAuthBlock object packed for recipients %s: pack #%d (recipient %s) does not open with that recipient's key to the session key of that call" % (
+                    order, step, who))
         return o
     if kind == "default":
         _, sel, ki = case
